@@ -110,7 +110,7 @@ func (m *MVCCHelper) Trash(version int64) error {
 			return it.Error()
 		}
 		//如果进入一个新的key, 这个key 忽略，不删除，也就是至少保留一个
-		if !bytes.HasPrefix(it.Key(), perfixkey) {
+		if !bytes.Equal(cutVersion(it.Key()), perfixkey) {
 			perfixkey = cutVersion(it.Key())
 			if perfixkey == nil {
 				perfixkey = []byte("--.xxx.--")
